@@ -531,8 +531,13 @@ func (p *Parsed) responseAt(b []byte, l Loc, fields *[]Field, strict *[]string) 
 	if hc.pos != hc.end {
 		hc.note("response: %d trailing bytes in header map", hc.end-hc.pos)
 	}
+	if r.Status == "" && !seen[":status"] {
+		return r, contentReject("response: missing :status")
+	}
 	if len(r.Status) != 3 || strings.Trim(r.Status, "0123456789") != "" {
-		return r, contentReject("response: bad or missing :status %q", r.Status)
+		// (a status is three decimal digits: anything else states no status code at all,
+		// so whatever number a reader would return for it is not in the file)
+		return r, listed("response: :status %q is not three decimal digits", r.Status)
 	}
 	body, rj := sc.str("response.body", 2)
 	if rj != nil {
